@@ -481,6 +481,23 @@ def wl_C04(rng, w, cfg, index):
             name = rng.choice(cand) if (cand and rng.random() < 0.6) else rng.choice(['colour', 'defaultx', 'bogus', 'level', 'content'])
             if gen_schema_name(elem, name.replace('-', '_')) is None:
                 yield {'op': 'ATTR_SET', 'a': 0, 'p': ['d0'], 'name': name.replace('-', '_'), 'value': 'x', 'fault': 'rej.bad_attr_name'}
+        # third surface: the parser (a one-element document carrying one attribute)
+        if table and rng.random() < cfg.get('p_parser_surface', 0.35):
+            from . import docgen
+            a, d = rng.choice(table)
+            r = rng.random()
+            declared = True
+            if r < 0.7:
+                v = value_for(a, d, True)
+            elif r < 0.85:
+                v = value_for(a, d, False)
+            else:
+                declared = False
+                a, v = rng.choice(['colour', 'bogus', 'defaultx']), 'x'
+            if v is not None:
+                cs1 = {'name': elem, 'value': gen.default_value(elem), 'attrs': {a: v}, 'kids': []}
+                yield {'op': 'FSPUT', 'path': 'one.xml', 'hex': docgen.to_xml(cs1).encode('utf-8').hex()}
+                yield {'op': 'PARSE', 'a': 0, 'path': 'one.xml', 'doc': 'dp', 'c04': {'elem': elem, 'attr': a, 'value': v, 'declared': declared}}
         # complete children so that serialisation can succeed, then serialise
         m = spec.model_for_element(elem)
         if m is not None:
